@@ -1290,19 +1290,7 @@ def run_cases(ctx, m, cases):
     return done
 
 
-def load_side_findings(ctx):
-    """candidate findings of this check that are not (yet) in /verif/known_findings.json"""
-    p = os.path.join(os.path.dirname(os.path.abspath(__file__)), "c05_known.json")
-    if not os.path.exists(p):
-        return
-    have = set(k.get("id") for k in ctx.known_findings)
-    for k in json.load(open(p)).get("findings", []):
-        if k.get("id") not in have:
-            ctx.known_findings.append(k)
-
-
 def run(ctx):
-    load_side_findings(ctx)
     ctx.coverage["immutable_files_possible"] = can_immutable(ctx.tmp)
     if not ctx.coverage["immutable_files_possible"]:
         ctx.notes.append("chattr +i is not possible on the temp file system: the -clean / -init / -compile cases with an "
